@@ -20,6 +20,7 @@ import CBV.Lemmas.C03Trans
 import CBV.Lemmas.C03Rev
 import CBV.Lemmas.C03CalcGen
 import CBV.Lemmas.C03Decode
+import CBV.Lemmas.C03Sem
 import CBV.Gen.TC03
 
 namespace CBV.C03
@@ -1691,5 +1692,63 @@ theorem T_C03_decoded_source_invert_validators :
     CBV.Gen.c03ValidatorBodies.map (fun p => (p.1, p.2.1, decodeBody p.2.2)) =
       validatorBodies.map (fun p => (p.1, p.2.1, some p.2.2)) :=
   ⟨invertBody_decoded, validatorBodies_decoded⟩
+
+/-! ### 10. the semantic tie for the closed-form relations
+
+`SemEq b₁ b₂`: two bodies have the same outcome under every slot interpretation and environment.  The obligation has
+the shape `decodeBody tokens = some t ∧ SemEq t body_<rel> ∧ run body_<rel> = model` (`semantic_tie`); today the decoded
+tree *is* the model's (`SemEq.refl`), a semantically equal rewrite of the source needs only a proof of `SemEq`. -/
+
+/-- For the five relations without a numeric library step: what the tokens generated from the current source decode
+    to evaluates, for all arguments and any slots, to the model function. -/
+theorem T_C03_semantic_source_start_count_c2c (P : Prims) (L r : ℚ) (n : ℕ) :
+    (decodeBody CBV.Gen.c03Body_start_size__count__c2c_expansion).map
+      (fun b => run P (relEnv ⟨.start, .count, .c2c⟩ L n r) b) = some (startCountC2c L n r) :=
+  semantic_start_count_c2c P L r n
+
+theorem T_C03_semantic_source_start_end_total (P : Prims) (L e T : ℚ) :
+    (decodeBody CBV.Gen.c03Body_start_size__end_size__total_expansion).map
+      (fun b => run P (relEnv ⟨.start, .end_, .total⟩ L e T) b) = some (startEndTotal L e T) :=
+  semantic_start_end_total P L e T
+
+theorem T_C03_semantic_source_end_start_total (P : Prims) (L s T : ℚ) :
+    (decodeBody CBV.Gen.c03Body_end_size__start_size__total_expansion).map
+      (fun b => run P (relEnv ⟨.end_, .start, .total⟩ L s T) b) = some (endStartTotal L s T) :=
+  semantic_end_start_total P L s T
+
+theorem T_C03_semantic_source_total_count_c2c (P : Prims) (L r : ℚ) (n : ℕ) :
+    (decodeBody CBV.Gen.c03Body_total_expansion__count__c2c_expansion).map
+      (fun b => run P (relEnv ⟨.total, .count, .c2c⟩ L n r) b) = some (totalCountC2c L n r) :=
+  semantic_total_count_c2c P L r n
+
+theorem T_C03_semantic_source_total_start_end (P : Prims) (L s e : ℚ) :
+    (decodeBody CBV.Gen.c03Body_total_expansion__start_size__end_size).map
+      (fun b => run P (relEnv ⟨.total, .start, .end_⟩ L s e) b) = some (totalStartEnd L s e) :=
+  semantic_total_start_end P L s e
+
+/-- the general shape, with its hypotheses met by a concrete instance below -/
+theorem T_C03_semantic_tie {toks : List String} {t body : List Stmt} {P : Prims} {env : PEnv} {res : Except Err ℚ}
+    (hdec : decodeBody toks = some t) (hsem : SemEq t body) (hrun : run P env body = res) :
+    (decodeBody toks).map (fun b => run P env b) = some res :=
+  semantic_tie hdec hsem hrun
+
+example : decodeBody CBV.Gen.c03Body_end_size__start_size__total_expansion = some body_end_start_total ∧
+    SemEq body_end_start_total body_end_start_total :=
+  ⟨body_end_start_total_decoded, SemEq.refl _⟩
+
+/-- A first normaliser for `SemEq` proofs: `canonE` sorts the operands of every `+` and `*` by their token encodings
+    (bottom up — the order the Python translator writes for the closed-form relations).  It does not change the value of
+    an expression in any environment; when *both* operands of a commuted node fail, the kind of error reported may differ,
+    hence the statement on `toOption`. -/
+theorem T_C03_canon_value (env : PEnv) (e : Expr) : (evalE env (canonE e)).toOption = (evalE env e).toOption :=
+  evalE_canonE env e
+
+/-- the source's `length * (1 - c)` and the commuted `(1 - c) * length` have the same normal form — the one the model's
+    tree of `get_start_size__count__c2c_expansion` holds -/
+example :
+    canonE (.mul (.var "length") (.sub (.lit 1) (.var "c2c_expansion"))) =
+      canonE (.mul (.sub (.lit 1) (.var "c2c_expansion")) (.var "length")) ∧
+    canonE (.mul (.var "length") (.sub (.lit 1) (.var "c2c_expansion"))) =
+      .mul (.sub (.lit 1) (.var "c2c_expansion")) (.var "length") := by decide +kernel
 
 end CBV.C03
